@@ -75,7 +75,8 @@ func (s *SortedInts) Add(x ...int) {
 	}
 	//Check for duplicates
 	for i := 0; i < len(x)-1; i++ {
-		if x[i] == x[i+1] {
+		//A duplicate of an element which is already in s has been counted above.
+		if x[i] == x[i+1] && indices[i+1] != -1 {
 			indices[i+1] = -1
 			numberAlreadySeen++
 		}
